@@ -4,19 +4,24 @@ from vcommon import *
 import vrt_runner, mu_common
 
 PID = "C01"
-PROP_V = ["Props/Properties_C01.v", "Props/Properties_C01w.v", "Props/Properties_C01p.v"]
+PROP_V = ["Props/Properties_C01.v", "Props/Properties_C01w.v", "Props/Properties_C01p.v", "Props/Properties_C01x.v"]
 GEN_MODULES = ["Consts", "Sites"]
-FLOW_FILES = ['mu.c', 'mu_wait.c']
+FLOW_FILES = ['mu.c', 'mu_wait.c', 'cv.c']
 REPLAY_HINT = "VRT_SEED=<seed> [env] _work/h/<scenario>  (deterministic: same seed, same schedule); add VRT_TRACE=<file> for the step trace"
 PARTIAL = ["quantifier 'counting and binary semaphores': the models use an abstract COUNTING semaphore (a sound over-approximation of the binary one for exclusion: fewer posts are never needed for safety); the binary flavour is exercised by the scenario runs only",
            "Properties_C01p: Crash 2 (unlock/runlock sanity check) and Crash 3 (MU_CONDITION seen by unlock_slow) are unreachable for ANY programs "
            "(C01_no_internal_panic); contract-respecting programs never panic (C01_no_panic); a Crash 1/4 pc is entered only by the step that begins an unlock of a "
            "non-holder / an acquisition by a holder (C01_panic_only_by_client_error).  well_bracketed is defined on straight-line op lists, so OTry may only be the "
            "last op; nsync_mu_assert_held / rassert_held / is_reader panics are outside MuModel; the 'checking a waiter condition' panic is MuWaitModel's (C06_no_scan_panic)",
-           "C01_exclusion (MuModel) and C01w_exclusion (MuWaitModel: + nsync_mu_wait_with_deadline incl. the timeout re-acquisition with its "
-           "frozen-word window, unlock_slow's conversion to a writer, unlock_without_wakeup) are theorems; the re-acquisitions inside "
-           "nsync_cv_wait* (transfer to the mutex queue) and nsync_wait_n are covered by the occupancy oracle over sampled schedules and by "
-           "the cv / wait_n models' own theorems (Properties_C05cv, C11_mutex), not by one exclusion theorem over a combined model"]
+           "C01_exclusion (MuModel), C01w_exclusion (MuWaitModel: + nsync_mu_wait_with_deadline incl. the timeout re-acquisition with its frozen-word window, "
+           "unlock_slow's conversion to a writer, unlock_without_wakeup) and C01x_exclusion (Model/MuXferModel.v, a wrapper that steps MuModel unchanged and adds "
+           "condition-variable waits on the same mutex: the release inside nsync_cv_wait, nsync_cv_signal / broadcast with wake_waiters stepped site by site "
+           "-- both of its writes of the mutex word proved lock-bit-preserving from the generated expressions --, the transfer of waiters to the mutex queue, the "
+           "re-acquisition as designated waker through nsync_mu_lock_slow_ (clear = MU_DESIG_WAKER) or afresh, timeouts / cancellation at any point: "
+           "C01x_reacquire_mode, C01x_reacquire_by_cas, C04x_transfer_sound, C04x_queue_sets_waiting, C04x_spinlock_exclusive) are theorems for any number of "
+           "threads, programs and schedules.  Abstractions of MuXferModel: the cv spinlock as three atomic sections, native waiters on one cv and one mutex, "
+           "cv word and remove_count not modelled.  The re-acquisition inside nsync_wait_n (through the caller's lock callback = a plain nsync_mu_lock) is "
+           "C11_mutex_state's plus C01_exclusion; one combined model of mu_wait.c AND cv.c on the same mutex does not exist: that mix is the occupancy oracle's"]
 TRUSTED_BASE = ["the Crash codes are ghost-routed: an unlock by a non-holder is stopped in begin_op (Crash 1) before nsync_mu_unlock's own check could see it -- that the real check catches the same client error is shown only by scenario runs",
                 "Model/MuModel.v control skeleton: hand-written, validated by lock-step replay of implementation traces "
                 "(replay/mu_replay.ml over the extracted model; extraction uses ExtrOcamlBasic only)",
@@ -42,6 +47,8 @@ def run(tier, seed):
         for m in mism[:3]:
             res["broken"].append({"what": "correspondence: MuModel and the real mu.c disagree in lock-step", "scenario": "mu_mix",
                                   "seed": m["seed"], "detail": m["replay"]})
+    tiex = mu_common.tie(res, "muxfer_replay", "MuXferModel", [("cv_mix", {"VRT_MODE": m}, 80, 800) for m in (0, 1, 2, 4)] +
+                         [("cv_mix", {"VRT_MODE": m, "VRT_GENERIC": 0}, 60, 600) for m in (5, 6)], tier, seed)
     # 2. oracle: shadow occupancy on every acquisition path, counting and binary semaphore flavours
     import scen_common
     specs = [("mu_mix", {}, 3000, 60000), ("cv_mix", {"VRT_MODE": 0}, 1500, 30000), ("cv_mix", {"VRT_MODE": 1}, 1000, 30000),
@@ -56,7 +63,9 @@ def run(tier, seed):
     agg = oc["sched_stats"]
     rs = []
     uncovered = [s for s in mu_common.MODEL_SITES if str(s) not in sites]
-    res["coverage"] = {"evaluations": nrun + nrep, "distinct_nontrivial": oc["distinct_nontrivial"], "other_oracle_failures": oc["other_oracle_failures"],
+    res["coverage"] = {"muxfer_traces_validated": tiex.get("traces_validated_against_impl", 0), "muxfer_lockstep_model_steps": tiex.get("lockstep_model_steps", 0),
+                       "muxfer_sites_hit": tiex.get("model_sites_hit", {}),
+                       "evaluations": nrun + nrep, "distinct_nontrivial": oc["distinct_nontrivial"], "other_oracle_failures": oc["other_oracle_failures"],
                        "rule": "mu_mix / cv_mix (3 modes) / muwait_mix / waitn_mix with the counting semaphore and mu_mix / cv_mix / muwait_mix with a binary one; "
                                "mu_mix: 2..4 threads (+ late arrivals) x random sequences of lock/rlock/trylock/rtrylock sections, random "
                                "and PCT-like schedules from VERIF_SEED; non-trivial = executions in which some thread slept on its semaphore "
